@@ -1,7 +1,7 @@
 (* C13 — property theorems only. Each is closed by [exact] of a lemma proved in C13/Proofs*.v. *)
 From Coq Require Import List Arith Bool.
 Import ListNotations.
-From AgileV Require Import C13.Model C13.Proofs C13.ProofsInv C13.ProofsSurface C13.ProofsGenuine C13.ProofsTimed.
+From AgileV Require Import C13.Model C13.Proofs C13.ProofsInv C13.ProofsSurface C13.ProofsGenuine C13.ProofsTimed C13.ProofsDeath.
 
 (* Misuse — waiting without a pending call, a second call (or set_attr) while one is pending, any call after
    close() — returns the documented error and leaves the whole state (parent and workers) unchanged,
@@ -99,6 +99,18 @@ Theorem forbidden_call_surfaces : forall fin e,
   fst r = Exc EValueError /\ st (snd r) = DEFAULT /\ closed (snd r) = false.
 Proof. exact forbidden_call_surfaces_lemma. Qed.
 Print Assumptions forbidden_call_surfaces.
+
+(* The death of a worker with a call pending surfaces whatever the victim's index (first, middle, last; any number
+   of workers): in a clean environment where on the pending command every sub-environment answers, raises or dies
+   without a word (SIGKILL) and at least one dies, X_async succeeds and the matching X_wait (with or without timeout)
+   returns EOFError at once — never Hang, never a silent Ok; close_total then cleans up. *)
+Theorem death_surfaces : forall k fin e,
+  clean e -> Forall mortal (ws e) -> Exists (fun w => next w = Die) (ws e) ->
+  fst (async k e) = Ok /\
+  let r := wait k fin (snd (async k e)) in
+  fst r = EOFErr /\ st (snd r) = wst k /\ closed (snd r) = false.
+Proof. exact death_surfaces_lemma. Qed.
+Print Assumptions death_surfaces.
 
 (* ... and conversely, in EVERY run (any calls, misuse, stale answers, kills, wake-ups, any plans): an exception type that
    any call re-raises was raised by some sub-environment according to its plan, or is the workers' own ValueError
